@@ -1,5 +1,12 @@
 package gen
 
+import (
+	"regexp"
+	"strconv"
+)
+
+var reArithParts = regexp.MustCompile(`^(add|mult|div)(fps|fxps|lqs|flpe)([0-9]+)[ft]([0-9]+)$`)
+
 // Co-implementation table for C01/C02: for which (opcode, register size) both
 // back ends — the Verilog templates and Opcode.Simulate — implement the
 // operation that Op_get_desc describes. Derived by READING the Simulate bodies
@@ -24,13 +31,29 @@ func Claimed(op string, rsize uint8) (bool, string) {
 	if reRsets.MatchString(op) {
 		return true, ""
 	}
+	if m := reArithParts.FindStringSubmatch(op); m != nil {
+		// two-step signed arithmetic on the register's bit pattern: claimed where the type's word size
+		// is the register size (FloPoCo wrappers need an external tool and are never claimed)
+		if s, _ := strconv.Atoi(m[3]); m[2] != "flpe" && s == int(rsize) {
+			return true, ""
+		}
+		return false, "dynamic arithmetic family: word size differs from the register size, or external IP"
+	}
 	switch op {
 	case "adc", "sbc", "incc", "cilc", "rsc", "clc", "cset", "jc":
 		return false, "the simulator has no carry flag (HDL-only state)"
 	case "sic", "sicv2", "sicv3":
 		return false, "timing instrument: the result is a cycle count"
-	case "addf", "multf", "divf", "jgt0f", "addf16", "multf16", "divf16":
-		return false, "floating point units: not yet driven by this check (multi-cycle IP, covered by C18 lint only)"
+	case "addf", "multf", "divf", "jgt0f":
+		if rsize == 32 {
+			return true, ""
+		}
+		return false, "32-bit floating point unit on another register size"
+	case "addf16", "multf16", "divf16":
+		if rsize == 16 {
+			return true, ""
+		}
+		return false, "16-bit floating point unit on another register size"
 	case "ja", "jo", "m2rri", "m2r", "r2m", "r2mri":
 		return false, "RAM / execution-mode dependent; the simulator executes ROM code only"
 	case "r2owaa", "addi":
